@@ -408,6 +408,9 @@ def model_lines(case: dict, capture: dict) -> List[str]:
         lines.append(state_line(stp["dict"] if "dict" in stp else state_dict(stp["state"])))
         for ref, it in stp["items"].items():
             lines.append(item_line(ref, it, it.get("timestep", k)))
+        if "truth" in stp:  # the live objects read at the same moment: every component must evaluate alike on `describeT truth`
+            lines.append("truth " + " ".join(pyval_words(stp["truth"])))
+            lines.append("truthcheck")
         lines.append("step")
         lines.append("mem")
         if stp.get("reset_after"):
@@ -416,7 +419,7 @@ def model_lines(case: dict, capture: dict) -> List[str]:
     return lines
 
 
-ANSWER_OPS = ("graph", "load", "step", "mem", "envreset", "locs", "fingerprint", "access", "restricted")
+ANSWER_OPS = ("graph", "load", "step", "mem", "envreset", "locs", "fingerprint", "access", "restricted", "truthcheck")
 
 
 def answer_mask(lines: List[str]) -> List[bool]:
@@ -952,6 +955,8 @@ def oracle_all(case: dict, impl: List[str], capture: dict) -> List[str]:
                     out.append(f"order not dependencies-first: evaluation order {order}: {u} shares from {v} (declared shares "
                                f"{graph[u]}) but is evaluated before it")
     out += capture.get("step_problems") or []
+    for lp in (capture.get("live_problems") or [])[:1]:
+        out.append("value differs from the live simulator objects: " + lp)
     for leak in (capture.get("leaks") or [])[:1]:
         out.append("component reads outside its leaf or own item: " + leak)
     game = capture.get("game")
@@ -1171,6 +1176,129 @@ def _dyadic(sv: Optional[str]) -> bool:
     return f.denominator & (f.denominator - 1) == 0 and f.denominator <= 64 and abs(f.numerator) <= 1024
 
 
+def live_truth(game, hostnames) -> List[dict]:
+    """The simulator OBJECTS a reward component can be about, read directly (attributes of the live objects, not
+    `describe_state()`), for the nodes with one of the given hostnames — the wire form of Model/RewardTruth.lean `Truth`."""
+    def files(d):
+        return [{"name": f.name, "health": int(f.health_status.value)} for f in d.values()]
+
+    def folders(d):
+        return [{"name": fo.name, "files": files(fo.files), "deleted_files": files(fo.deleted_files)} for fo in d.values()]
+
+    def entry(h):
+        loaded = h.status.name == "LOADED"
+        return {"loaded": loaded, "code": int(h.response_code.value) if loaded and h.response_code is not None else 0,
+                "status": str(h.status.value)}
+    out = []
+    for node in game.simulation.network.nodes.values():
+        if node.config.hostname not in hostnames:
+            continue
+        out.append({
+            "hostname": node.config.hostname,
+            "folders": folders(node.file_system.folders), "deleted_folders": folders(node.file_system.deleted_folders),
+            "services": [{"name": sv.name, "codes": ([int(c.value) for c in sv.response_codes_this_timestep]
+                                                     if hasattr(sv, "response_codes_this_timestep") else None)}
+                         for sv in node.services.values()],
+            "applications": [{"name": ap.name, "history": ([entry(h) for h in ap.history] if hasattr(ap, "history") else None)}
+                             for ap in node.applications.values()]})
+    return out
+
+
+class LiveOracle:
+    """C10's ground truth for "evaluated on the post-step state": after every real step each component's value is recomputed
+    from the LIVE simulator objects (never from `describe_state()`), the agent's own newest history item and the oracle's own
+    record of the component's previous value — the specifications proved in Props/C10Truth.lean, restated in Python — and
+    compared with what the real `calculate` returned."""
+
+    def __init__(self):
+        self.mem: Dict[int, float] = {}
+        self.checked = 0
+        self.problems: List[str] = []
+
+    @staticmethod
+    def _last(objs, name_of, name):
+        found = None
+        for o in objs:
+            if name_of(o) == name:
+                found = o
+        return found
+
+    def expected(self, game, agent, comp, dc: dict):
+        k = dc["kind"]
+        item = agent.history[-1]
+        mem = self.mem.get(id(comp), 0.0)
+        nodes = list(game.simulation.network.nodes.values())
+        node = self._last(nodes, lambda n: n.config.hostname, dc.get("node")) if "node" in dc else None
+        if k == "dummy":
+            return 0.0
+        if k == "file":
+            fo = self._last(node.file_system.folders.values(), lambda f: f.name, dc["folder"]) if node is not None else None
+            fi = self._last(fo.files.values(), lambda f: f.name, dc["file"]) if fo is not None else None
+            if fi is None:
+                return 0.0
+            h = fi.health_status.value
+            return -1 if h == 2 else (1 if h == 1 else 0)
+        if k == "web404":
+            sv = self._last(node.services.values(), lambda x: x.name, dc["service"]) if node is not None else None
+            if sv is None:
+                return 0.0  # memory untouched
+            codes = [c.value for c in getattr(sv, "response_codes_this_timestep", [])]
+            if codes:
+                v = sum(1.0 if c == 200 else -1.0 if c == 404 else 0.0 for c in codes) / len(codes)
+            else:
+                v = mem if dc["sticky"] else 0.0
+            self.mem[id(comp)] = v
+            return v
+        if k == "webpage":
+            br = self._last(node.applications.values(), lambda x: x.name, "web-browser") if node is not None else None
+            mem1 = 0.0 if br is None else mem
+            if list(item.request) != ["network", "node", dc["node"], "application", "web-browser", "execute"]:
+                v = mem1 if dc["sticky"] else 0.0
+            elif item.response.status != "success":
+                v = -1.0
+            elif br is None or not br.history:
+                v = 0.0
+            else:
+                h = br.history[-1]
+                if h.status.name == "LOADED":
+                    v = 1.0 if h.response_code.value == 200 else -1.0
+                else:
+                    v = 0.0 if h.status.value == "PENDING" else -1.0
+            self.mem[id(comp)] = v
+            return v
+        if k == "greendb":
+            if list(item.request) == ["network", "node", dc["node"], "application", "database-client", "execute"]:
+                v = 1.0 if item.response.status == "success" else -1.0
+            else:
+                v = mem if dc["sticky"] else 0.0
+            self.mem[id(comp)] = v
+            return v
+        if k == "actionpenalty":
+            return dbl(dc["dn"]) if item.action == "do-nothing" else dbl(dc["ap"])
+        if k == "shared":
+            other = game.agents.get(dc["agent"])
+            return other.reward_function.current_reward if other is not None else None
+        raise ValueError(k)
+
+    def after_step(self, game, tap: "CalcTap", desc: Dict[str, dict], step_no: int):
+        order = [r for r in game._reward_calculation_order if r in game.agents and r in desc]
+        for ref in order:
+            agent = game.agents[ref]
+            comps = agent.reward_function.reward_components
+            if len(comps) != len(desc[ref]["comps"]):
+                continue
+            for (comp, _w), dc in zip(comps, desc[ref]["comps"]):
+                got = tap.last.get(id(comp))
+                try:
+                    want = self.expected(game, agent, comp, dc)
+                except Exception as e:  # the oracle itself must not hide a problem
+                    want = f"oracle error {type(e).__name__}: {e}"
+                self.checked += 1
+                if want != got and len(self.problems) < 3:
+                    self.problems.append(f"step {step_no}: {dc['kind']} component of {ref} ({ {k2: v for k2, v in dc.items() if k2 in ('node', 'folder', 'file', 'service', 'sticky', 'agent')} }) "
+                                         f"returned {got!r} but the live simulator objects at the end of the step give {want!r}")
+
+
 def real_paths(game) -> List[List[str]]:
     """The `location_in_state` key paths the REAL component objects computed in their latest `calculate`."""
     out = []
@@ -1228,6 +1356,9 @@ def run_env(case: dict) -> Tuple[List[str], dict]:
     steps = []
     capture: Dict[str, Any] = {"setorders": [], "aux": []}
     check = StepCheck(agents)
+    live = LiveOracle()
+    hostnames = {c["node"] for a in agents for c in a["comps"] if "node" in c}
+    n_comps = sum(len(a["comps"]) for a in surviving(agents).values())
     n_proxies = sum(1 for a in cfg["agents"] if a.get("type") == "proxy-agent")
     arng = Rng(case["seed"] + 17)
     reset_at = set(case.get("reset_at", []))
@@ -1276,7 +1407,9 @@ def run_env(case: dict) -> Tuple[List[str], dict]:
                     items[ref] = {"action": str(h.action), "request": list(h.request), "status": h.response.status,
                                   "timestep": h.timestep}
                 paths = real_paths(game)
-                stp = {"dict": py_restrict(states[-1], paths), "items": items}
+                stp = {"dict": py_restrict(states[-1], paths), "items": items, "truth": live_truth(game, hostnames)}
+                live.after_step(game, ctap, check.desc, k + 1)
+                out.append(f"same {n_comps}")  # the answer expected from the driver's `truthcheck` (asked before its `step`)
                 if (k + 1) in full_at:  # the WHOLE real dictionary: serialisation, access_from_nested_dict, projection
                     capture["aux"].append({"family": "access", "state": states[-1], "paths": perturbed_paths(arng, paths, states[-1]),
                                            "restrict": paths, "from": f"{case.get('source')} step {k + 1}"})
@@ -1302,12 +1435,15 @@ def run_env(case: dict) -> Tuple[List[str], dict]:
                     stp["reset_after"] = True
                     out.append("ok order=" + ",".join(esc(x) for x in game._reward_calculation_order) + " " + show_agents(game))
                     check.after_reset(game)
+                    live.mem.clear()
                     ctap.last.clear()
                 steps.append(stp)
             out.append(locs_answer(game))
             capture["game"] = game
             capture["leaks"] = list(ctap.leaks)
             capture["rechecked"] = ctap.rechecked
+            capture["live_checked"] = live.checked
+            capture["live_problems"] = list(live.problems)
             if env is not None:
                 env.close()
     finally:
